@@ -259,7 +259,7 @@ claim("C12",
       "Preconditions (validated take bounds, operator arities as the resolver builds them, id counters below usize::MAX) are assumptions about call sites "
       "that are not themselves verified; RQ/PL supplied as JSON can violate them.")
 
-prop("C08", ["literals", "lex_strings", "json_lits", "concat_ops", "lex_numbers", "fmt_strings", "sql_prec", "static_eval", "lower_expr"],
+prop("C08", ["literals", "lex_strings", "json_lits", "concat_ops", "lex_numbers", "fmt_strings", "sql_prec", "static_eval", "lower_expr", "literal_frame"],
      select={"lower_expr": lambda n: n.split(".", 1)[1] in ("LL1", "LF1", "LF1i", "LSS1", "LIN1", "LIN1i", "SL1", "MB1") or n.endswith(".safety"),
              "static_eval": lambda n: n.split(".", 1)[1] in ("SE1", "SE1f", "static_eval_rq_operator.safety"),
              "sql_prec": lambda n: n.split(".", 1)[1].startswith("NP4.std_neg.") or n.split(".", 1)[1] == "NP4s.std_neg",
@@ -274,7 +274,7 @@ claim("C08",
       "text that is neither (LN1-3); the string lexer (parse_escape_sequence and the body of multi_quoted_string, verbatim): \\n \\r \\t \\b \\f \\\\ \\/ and the "
       "escaped quote denote the documented character and consume one character (ES2a), \\xHH and \\u{H..} with 1-6 digits denote the character with that code "
       "and consume exactly the escape (ES2b-c), an unescaped string opened by n quotes is the text up to the FIRST run of n quotes, verbatim (MQ2, any n, any "
-      "length), every loop terminates and only moves forward (ES1, ES4, MQ1, MQL). JSON values of from_text become literals of the same value without panicking, for every number serde_json can hold (json_lits JL1-4). the operands handed to `||` / CONCAT for an f-string are exactly the flattened operands of the nested std.concat, in order (concat_ops CC1-2). a negative number literal is a unary minus, and the hole of the `neg` template demands more than the strength of a unary minus, so `-n` with n = -5 is `-(-5)` and never the comment `--5` (sql_prec NP4.std_neg rows, literals NE1); a comparison of two literals that is folded at compile time has the value the database would compute (static_eval SE1: same variant only - a string and a raw string are left to the database). lowering hands a literal on unchanged, turns an f-string into the left-nested std.concat of its items in order with every text item as the string literal of exactly that text (the empty f-string is ''), and keeps the text items of an s-string (lower_expr LL1, LF1, LSS1, LIN1). NOT proved: float formatting round trip, backslash-escaping dialects, "
+      "length), every loop terminates and only moves forward (ES1, ES4, MQ1, MQL). JSON values of from_text become literals of the same value without panicking, for every number serde_json can hold (json_lits JL1-4). the operands handed to `||` / CONCAT for an f-string are exactly the flattened operands of the nested std.concat, in order (concat_ops CC1-2). a negative number literal is a unary minus, and the hole of the `neg` template demands more than the strength of a unary minus, so `-n` with n = -5 is `-(-5)` and never the comment `--5` (sql_prec NP4.std_neg rows, literals NE1); a comparison of two literals that is folded at compile time has the value the database would compute (static_eval SE1: same variant only - a string and a raw string are left to the database). lowering hands a literal on unchanged, turns an f-string into the left-nested std.concat of its items in order with every text item as the string literal of exactly that text (the empty f-string is ''), and keeps the text items of an s-string (lower_expr LL1, LF1, LSS1, LIN1). FRAME (syntactic, whole tree): the functions that construct a string literal are the lexer's and the listed few that make a string from something else; everything in between copies it (literal_frame LF.maker rows: a new maker needs a contract of its own). NOT proved: float formatting round trip, backslash-escaping dialects, "
       "content of escaped strings beyond one escape.",
       "sqlparser's Display (leaves doubled quotes alone - read in its source, validated by the thorough-tier sweep on SQLite) and sqlformat (white space only, given "
       "its precondition) are trusted; str::parse, str::replace and format! are uninterpreted; date/time/interval arms are not under contract.")
